@@ -5,6 +5,7 @@ exception injected at any file-object call, short reads, finite capacity.
 -/
 import MutagenModel.Proofs.OkAgree
 import MutagenModel.Proofs.Container.FlacEntry
+import MutagenModel.Generated.EntryPoints
 set_option linter.unusedVariables false
 namespace Mutagen.C06
 open Mutagen
@@ -74,6 +75,17 @@ theorem flac_save_ok_means_written (B : Nat) (hB : 0 < B) (L : Layout) (blocks :
     (s s' : FS) (hs : s.data = render L) (h : saveM B L blocks pad e s = (.ok (), s')) :
     s'.data = render (msave L blocks false pad) :=
   saveM_ok_means_written B hB L blocks pad hsz e hshort s s' hs h
+
+/-- the static shape of every public entry point (regenerated from the source by decorator
+introspection and an AST scan on every run): for each load/save/delete of the 24 file types,
+the tag classes and the module-level delete functions, an IOError raised by the file object
+is converted by a `convert_error(IOError, <MutagenError subclass>)` decorator, or caught and
+re-raised by a handler in the body, or the function does no file I/O of its own and every
+callee that receives the file (stream-info constructors included) is protected in turn.
+Dropping such a decorator makes this theorem fail. -/
+theorem entrypoints_protected :
+    (Generated.entryPoints.all fun e => e.2.2.2.1 != "unprotected") = true ∧
+    Generated.entryPoints.length ≥ 80 := by decide
 
 /-! non-vacuity: an injected fault in the middle of a move really surfaces, converted -/
 example : (convertError PyErr.isIO .mutagen (moveBytes 2 0 2 3)
